@@ -189,10 +189,12 @@ func c06History(t *testing.T, o *vOut, seed int64, keyTypes []KeyType, idx int, 
 			if script != nil {
 				op = script[step]
 			} else if step > 0 {
-				op = []string{"renew", "renew", "compromise", "obtain", "dropcert", "obtainfault", "obtain", "revokekc"}[rng.Intn(8)]
+				op = []string{"renew", "renew", "compromise", "obtain", "dropcert", "obtainfault", "obtain", "revokekc", "renewwfault", "obtainwfault"}[rng.Intn(10)]
 				if nIss == 2 && rng.Intn(4) == 0 {
 					op = "flip" // the first issuer goes down / comes back: the other one answers meanwhile
 				}
+			} else if rng.Intn(5) == 0 {
+				op = "obtainwfault" // the very first save of the bundle meets the write fault
 			}
 			// the key storage holds before the operation (one issuer: the pinned key under reuse)
 			prevKey := ""
@@ -209,6 +211,7 @@ func c06History(t *testing.T, o *vOut, seed int64, keyTypes []KeyType, idx int, 
 				calls0 += len(vi.Calls())
 			}
 			var err error
+			writeFault := "" // the file of the bundle whose write met an injected fault in this operation
 			switch op {
 			case "obtain":
 				err = cfg.ObtainCertSync(ctx, subj.given)
@@ -268,6 +271,38 @@ func c06History(t *testing.T, o *vOut, seed int64, keyTypes []KeyType, idx int, 
 				if fired {
 					o.Stat("key_load_faults_injected", 1)
 				}
+			case "obtainwfault", "renewwfault":
+				// a transient storage error on ONE WRITE of the bundle's save: the private key, the
+				// certificate chain or the metadata (whichever the save writes as its wf-th file of this
+				// name). Whatever the operation then reports, a reported success is judged like any other:
+				// the bundle of what was issued is in storage, complete, matching, loadable. A reported
+				// failure leaves what was there (the model's ":err" = no change), which the following
+				// operations of the history observe.
+				wf := []string{".key", ".crt", ".json"}[rng.Intn(3)]
+				fired := false
+				st.Fault = func(n int, kind, key string) error {
+					if kind == "Store" && !fired && strings.HasPrefix(key, "certificates/") && strings.HasSuffix(key, wf) {
+						fired = true
+						return errVInjected
+					}
+					return nil
+				}
+				if op == "obtainwfault" {
+					err = cfg.ObtainCertSync(ctx, subj.given)
+					op = "obtain"
+				} else {
+					err = cfg.RenewCertSync(ctx, subj.given, true)
+					op = "renew"
+				}
+				st.Fault = nil
+				if fired {
+					writeFault = wf
+					o.Stat("bundle_write_faults_injected", 1)
+					o.Stat("bundle_write_faults_on"+wf, 1)
+					if err == nil {
+						o.Stat("bundle_write_faults_survived", 1)
+					}
+				}
 			case "renew":
 				err = cfg.RenewCertSync(ctx, subj.given, true)
 			case "compromise":
@@ -316,7 +351,8 @@ func c06History(t *testing.T, o *vOut, seed int64, keyTypes []KeyType, idx int, 
 			// ---------------- oracles on what storage now holds -------------------------------
 			res, lerr := cfg.loadCertResourceAnyIssuer(ctx, subj.canon)
 			if lerr != nil {
-				o.Mon("C06 success-but-not-loadable", map[string]any{"seed": seed, "subject": subj.given, "op": op, "err": lerr.Error()})
+				o.Mon("C06 success-but-not-loadable", map[string]any{"seed": seed, "subject": subj.given, "op": op, "err": lerr.Error(),
+					"write_fault_on": writeFault, "history": strings.Join(opsTok, ",")})
 				return
 			}
 			ik := res.issuerKey
@@ -349,7 +385,22 @@ func c06History(t *testing.T, o *vOut, seed int64, keyTypes []KeyType, idx int, 
 					if oerr == nil {
 						ol = c06LeafOf(own.CertificatePEM)
 					}
+					// is the certificate that was just issued anywhere in storage (any issuer's folder)?
+					anywhere := false
+					for _, vi := range viss {
+						if cb, e := st.Load(ctx, StorageKeys.SiteCert(vi.IssuerKey(), subj.canon)); e == nil {
+							if l := c06LeafOf(cb); l != nil && l.SerialNumber.String() == last.Serial {
+								anywhere = true
+							}
+						}
+					}
 					switch {
+					case !anywhere:
+						// success was reported for an issuance whose certificate storage does not hold at all
+						// (what is loadable, if anything, is an earlier bundle)
+						o.Mon("C06 issued-certificate-not-in-storage", map[string]any{"seed": seed, "subject": subj.given, "op": op, "issuer": last.IssuerID,
+							"write_fault_on": writeFault, "reuse": reuse, "issuers": nIss, "history": strings.Join(opsTok, ",")})
+						return
 					case oerr != nil:
 						o.Mon("C06 issued-bundle-not-loadable-under-its-issuer", map[string]any{"seed": seed, "subject": subj.given, "op": op, "issuer": last.IssuerID, "err": oerr.Error(), "history": strings.Join(opsTok, ",")})
 					case ol == nil || ol.SerialNumber.String() != last.Serial:
